@@ -338,6 +338,7 @@ def extract_fn(relpath, qual, ann):
     apply_range_next(ed, it, src)
     apply_be_vec(ed, it, src)
     apply_admin_set(ed, it, src)
+    apply_sort_concat(ed, src, s0, e0)
     apply_ref_tuple_patterns(ed, src, s0, e0)
     apply_destructuring_assign(ed, src, s0, e0)
     apply_format_macros(ed, it, src)
@@ -800,6 +801,25 @@ def apply_ref_tuple_patterns(ed, src, lo, hi):
         ed.add(lo + i + 1, lo + i + 1, binds, None)
 
 
+_D14 = re.compile(rb"let\s+mut\s+(\w+)\s*=\s*(\w+)\.to_vec\(\)\s*;")
+_D12 = re.compile(rb"(\w+)\.sort_by\(\s*\|\s*a\s*,\s*b\s*\|\s*a\.as_bytes\(\)\.cmp\(\s*b\.as_bytes\(\)\s*\)\s*\)\s*;")
+_D13 = re.compile(rb"\[\s*(\w+\[\d\])\.as_bytes\(\)\s*,\s*(\w+\[\d\])\.as_bytes\(\)\s*(?:,\s*(\w+\[\d\])\.as_bytes\(\)\s*)?,?\s*\]\s*\.concat\(\)(\s*\.as_slice\(\)\s*\.to_vec\(\))?")
+
+
+def apply_sort_concat(ed, src, lo, hi):
+    """D12-D14 (mechanical, whatever the locals are called): `let mut A = B.to_vec();` -> `B.verif_to_vec()`; `A.sort_by(|a, b|
+    a.as_bytes().cmp(b.as_bytes()));` -> `verif_sort_by_bytes(&mut A);`; `[X[i].as_bytes(), ..].concat()[.as_slice().to_vec()]` ->
+    `verif_concat2/3(..)` (prelude/misc.rs: ASSUMED contracts of the std slice functions on 2 or 3 byte strings)."""
+    body = src[lo:hi]
+    for m in _D14.finditer(body):
+        ed.add(lo + m.start(), lo + m.end(), f"let mut {m.group(1).decode()} = {m.group(2).decode()}.verif_to_vec();", "D14", "`x.to_vec()` on an array/slice local -> verif_to_vec (element-wise clone)")
+    for m in _D12.finditer(body):
+        ed.add(lo + m.start(), lo + m.end(), f"verif_sort_by_bytes(&mut {m.group(1).decode()});", "D12", "`v.sort_by(|a, b| a.as_bytes().cmp(b.as_bytes()))` -> verif_sort_by_bytes")
+    for m in _D13.finditer(body):
+        args = [g.decode() + ".as_bytes()" for g in (m.group(1), m.group(2), m.group(3)) if g]
+        ed.add(lo + m.start(), lo + m.end(), f"verif_concat{len(args)}(" + ", ".join(args) + ")", "D13", "`[a, b(, c)].concat()` on byte strings -> verif_concat2/3")
+
+
 def apply_admin_set(ed, it, src, inside=lambda sp: True):
     # R15: `ADMIN.set(deps.branch(), X)` -> `ADMIN.set_in(deps.storage, X)` (Verus cannot relate the nested `&mut` of a re-borrowed DepsMut;
     # cw-controllers' Admin::set writes storage only)
@@ -1081,7 +1101,9 @@ def extract_segment(relpath, qual, ann):
         ed.add(hits[0]["span"][1], hits[0]["span"][1], "\n" + ptext.rstrip() + "\n", "A1")
     for (rule, old, new) in ann.get("replaces") or []:
         ob = old.strip().encode(); body = src[s0:e0]; cnt = body.count(ob)
-        every = rule.endswith(" all"); rule = rule.split()[0]
+        every = rule.endswith(" all"); optional = rule.endswith(" opt"); rule = rule.split()[0]
+        if cnt == 0 and optional:
+            continue
         if cnt < 1 or (cnt != 1 and not every):
             raise Inconclusive(f"anchor lost: rewrite {rule} snippet found {cnt} times in segment of {qual}")
         pos = 0
@@ -1116,6 +1138,7 @@ def extract_segment(relpath, qual, ann):
     apply_range_next(ed, it, src, inside)
     apply_be_vec(ed, it, src, inside)
     apply_admin_set(ed, it, src, inside)
+    apply_sort_concat(ed, src, s0, e0)
     apply_ref_tuple_patterns(ed, src, s0, e0)
     apply_destructuring_assign(ed, src, s0, e0)
     apply_format_macros(ed, it, src, inside)
